@@ -382,10 +382,13 @@ func (h *H) Go(f func()) {
 		defer h.wg.Done()
 		f()
 	}()
-	// the engine's default policy runs a new thread until it blocks, ends or is preempted at a
-	// recorded boundary before the spawner continues: give the goroutine that head start, so that
-	// harnesses whose observations depend on the schedule replay the recorded one
-	time.Sleep(time.Duration(slowFactor()) * 40 * time.Millisecond)
+	// the engine's default policy runs a new thread until it blocks or ends before the spawner
+	// continues. A record without preemptions is such a run: give the goroutine that head start,
+	// so that harnesses whose observations depend on the schedule see the recorded one. With
+	// recorded preemptions the pauses at the recorded boundaries order the goroutines instead.
+	if len(h.hints) == 0 {
+		time.Sleep(time.Duration(slowFactor()) * 40 * time.Millisecond)
+	}
 }
 
 func (h *H) Wait() bool {
